@@ -32,4 +32,20 @@ def localLeaves (s : Int) (t : T) : List Range := (fieldLeaves t).map (shift (-s
 def decodeRange (cfg : Cfg) (input : Bits) : Int × Int :=
   if cfg.off = 0 ∧ cfg.len = 0 then (0, (input.length : Int)) else ((cfg.off : Int), (cfg.len : Int))
 
+/-- order used by the driver's pre-sort -/
+def leStart (a b : Range) : Bool := decide (a.start ≤ b.start)
+
+/-- `ranges.Gaps` of the model, computed on a merge-sorted permutation of the input when every length is
+    non-negative: the model's own sort is an insertion sort (quadratic on unsorted input, linear on sorted input), and
+    `Props.C04.gaps_presorted` (from `gaps_perm`) proves the value is the same.  Used by the driver so that cases with
+    10^5 ranges (run big) stay within the quick budget. -/
+def gapsPresorted (total : Range) (rs : List Range) : List Range :=
+  if rs.all (fun r => decide (0 ≤ r.len)) then gaps total (rs.mergeSort leStart) else gaps total rs
+
+/-- the hull `first.start .. last.stop` of a list of ranges given in order (what a "one range per big array"
+    shortcut would hand to `ranges.Gaps` instead of the elements); `[]` for no elements -/
+def hullOf : List Range → List Range
+  | [] => []
+  | r :: rs => [⟨r.start, (rs.getLast?.getD r).stop - r.start⟩]
+
 end FqModel.GapsTree
